@@ -52,6 +52,12 @@ def apply_edit(tmp, v):
                     rename_locals(tree, v.get("suffix", "_r"))
                     open(p, "w").write(ast.unparse(tree) + "\n")
         return None
+    if v.get("patch"):
+        # a seeded change kept under /verif/seeded (unified diff against the repository root)
+        r = subprocess.run(["patch", "-p1", "-s", "--no-backup-if-mismatch", "-i", v["patch"]], cwd=tmp, capture_output=True, text=True)
+        if r.returncode != 0:
+            return f"patch does not apply: {r.stdout[:200]} {r.stderr[:200]}"
+        return None
     for ed in v["edits"]:
         p = os.path.join(tmp, "inferno", ed["file"])
         s = open(p).read()
@@ -154,6 +160,23 @@ def run_variant(args):
         shutil.rmtree(tmp, ignore_errors=True)
 
 
+def seeded_variants():
+    """The changes written by independent sub-agents (DESIGN 12): the target property's check must fire and every check
+    outside meta.json's `checks_that_fire_now` must stay silent."""
+    import json
+    out = []
+    base = os.path.join(VERIF, "seeded")
+    for d in sorted(os.listdir(base)) if os.path.isdir(base) else []:
+        mp = os.path.join(base, d, "meta.json")
+        if not os.path.exists(mp):
+            continue
+        meta = json.load(open(mp))
+        fires = meta["checks_that_fire_now"]
+        out.append({"id": "seeded-" + d, "patch": os.path.join(base, d, "patch.diff"), "props": [meta["breaks_property"]],
+                    "silent": [p for p in PROPS if p not in fires], "expect": "violation"})
+    return out
+
+
 def main():
     ap = argparse.ArgumentParser()
     ap.add_argument("-j", type=int, default=16)
@@ -161,6 +184,7 @@ def main():
     ap.add_argument("--root", default="/repo")
     a = ap.parse_args()
     variants = [dict(v, expect="violation") for v in BREAKING] + [dict(v, expect="silent") for v in BENIGN]
+    variants += seeded_variants()
     if a.only:
         variants = [v for v in variants if a.only in v["id"]]
     t0 = time.time()
